@@ -156,7 +156,23 @@ func (ww *conversionVisitor) visitServiceMethodNode(service *serviceBuilder, nod
 	}
 
 	if method.ListRequest != nil {
-		proto.SetExtension(methodBuilder.desc.Options, list_j5pb.E_ListRequest, method.ListRequest)
+		// (j5.list.v1.list_request) is a message option: it annotates the
+		// request message, which was added to this file just before the method.
+		var request *descriptorpb.DescriptorProto
+		for _, msg := range ww.file.fdp.MessageType {
+			if msg.GetName() == node.InputType {
+				request = msg
+			}
+		}
+		if request == nil {
+			ww.addErrorf(node.Source, "request message %s not found for listRequest", node.InputType)
+			return
+		}
+		if request.Options == nil {
+			request.Options = &descriptorpb.MessageOptions{}
+		}
+		proto.SetExtension(request.Options, list_j5pb.E_ListRequest, method.ListRequest)
+		ww.file.ensureImport(j5ListAnnotationsImport)
 	}
 	service.desc.Method = append(service.desc.Method, methodBuilder.desc)
 }
